@@ -32,6 +32,8 @@ pub type EResult<T> = expression_engine::Result<T>;
 
 pub static START: OnceLock<Instant> = OnceLock::new();
 pub static PROGRESS: AtomicU64 = AtomicU64::new(0);
+/// logical clock shared by the threads of a scenario ("tick" bumps it, "wait_tick" spins until it reaches n)
+pub static TICK: AtomicU64 = AtomicU64::new(0);
 pub static OUT: OnceLock<Mutex<File>> = OnceLock::new();
 pub static JOURNAL: OnceLock<File> = OnceLock::new();
 
@@ -652,6 +654,57 @@ impl Interp {
             "init_race" => init_race(j, &mut out),
             "enum" => enumerate::run(j, &mut out),
             "sleep_ms" => std::thread::sleep(Duration::from_millis(j.get("ms").int() as u64)),
+            "hammer" => {
+                // dense evaluation of one program in a tight loop; only outcome *changes* are recorded, each
+                // segment with the call time of its first and last evaluation and the return time of the last
+                if j.get("tick").bool() {
+                    TICK.fetch_add(1, Ordering::SeqCst);
+                }
+                let text = j.get("text").str();
+                let n = j.get("n").int();
+                let mut segs: Vec<(String, u64, u64, u64, u64)> = Vec::new();
+                for _ in 0..n {
+                    let a = now_ns();
+                    let r = catch(|| execute(text, Context::new()));
+                    let b = now_ns();
+                    let key = match r {
+                        Ok(r) => res_json(&r),
+                        Err(p) => panic_json(&p),
+                    };
+                    match segs.last_mut() {
+                        Some(last) if last.0 == key => {
+                            last.2 = a;
+                            last.3 = b;
+                            last.4 += 1;
+                        }
+                        _ => segs.push((key, a, a, b, 1)),
+                    }
+                }
+                out.push_str(",\"segs\":[");
+                for (i, sg) in segs.iter().enumerate() {
+                    if i > 0 {
+                        out.push(',');
+                    }
+                    let _ = write!(out, "{{\"res\":{},\"first_t0\":{},\"last_t0\":{},\"last_t1\":{},\"count\":{}}}", sg.0, sg.1, sg.2, sg.3, sg.4);
+                }
+                out.push(']');
+            }
+            "tick" => {
+                TICK.fetch_add(1, Ordering::SeqCst);
+            }
+            "wait_tick" => {
+                // bounded spin on the logical clock: lets a registration land while other threads are in
+                // the middle of a block of evaluations; gives up after a generous number of yields
+                let n = j.get("n").int() as u64;
+                let mut spins: u64 = 0;
+                while TICK.load(Ordering::SeqCst) < n && spins < 200_000_000 {
+                    std::hint::spin_loop();
+                    spins += 1;
+                    if spins % 1024 == 0 {
+                        std::thread::yield_now();
+                    }
+                }
+            }
             other => {
                 let _ = write!(out, ",\"harness_error\":{}", q(&format!("unknown op {}", other)));
             }
